@@ -25,6 +25,9 @@ CONSTANTS KDoms,      \* family of preimage sets that receive adversarial keys
           MaxSteps,   \* bound on the number of mutating actions
           PurgeLast,  \* BOOLEAN: directed replay configs -- writes first, one Purge as the last step
           WithObs,    \* BOOLEAN: maintain the derived variable obs (simulation / replay configs)
+          PurgeByKey, \* BOOLEAN: TRUE = as built before fix-c03-purge-collision (Store.Purge empties q's two
+                      \* shared slots whatever sits there); FALSE = the slot is emptied only when its entry
+                      \* passes the full-preimage check for q (a colliding entry behaves as a miss)
           Kinds       \* subset of {"pos","fail","cut","ask"}: which stores/actions are exercised
 
 (* ------------------------------ universe -------------------------------- *)
@@ -318,8 +321,11 @@ ForgeCut(b, c) ==
   /\ last' = [op |-> "forgecut", under |-> b, c |-> c]
   /\ UNCHANGED <<pos, fail, cuts>> /\ Same
 
-(* Store.Purge(q): both CD keys of the shared partition are removed BY KEY *)
-(* (whatever sits there); scoped entries are swept by question;            *)
+(* Store.Purge(q): both CD keys of the shared partition are probed and the  *)
+(* slot is emptied when the entry there passes entryMatchesKey for          *)
+(* (q, cd, shared) -- purgeVerified; with PurgeByKey (as built before the   *)
+(* repair) whatever sits there is removed; scoped entries are swept by      *)
+(* question;                                                                *)
 (* FailureCache.PurgeQuestion sweeps every CD/scope variant by question;   *)
 (* nxDomainCutCache.purge removes every cut covering q.name in q.class     *)
 PurgeQs == {q \in [name : Names, type : Types, class : Classes] :
@@ -329,7 +335,10 @@ Covering(q) == {c \in cuts : c.class = q.class /\
                   \E i \in 1..Len(SuffixesOf[FoldOf[q.name]]) : SuffixesOf[FoldOf[q.name]][i] = c.name}
 Purge(q) ==
   /\ Tick /\ (PurgeLast => steps = MaxSteps - 1)
-  /\ LET byKey == {KeyOf(Pre(q.name, q.type, q.class, cd, "sh")) : cd \in BOOLEAN}
+  /\ LET own(cd) == KeyOf(Pre(q.name, q.type, q.class, cd, "sh"))
+         byKey == IF PurgeByKey THEN {own(cd) : cd \in BOOLEAN}
+                  ELSE {k \in DOMAIN pos : \E cd \in BOOLEAN :
+                          k = own(cd) /\ SameQ(pos[k], q) /\ pos[k].cd = cd /\ pos[k].scope = "sh"}
          swept == {k \in DOMAIN pos : pos[k].scope # "sh" /\ SameQ(pos[k], q)}
      IN pos' = TLCEval([k \in DOMAIN pos \ (byKey \cup swept) |-> pos[k]])
   /\ fail' = TLCEval([k \in {k \in DOMAIN fail : ~(fail[k].name = FoldOf[q.name] /\ fail[k].type = q.type
@@ -415,13 +424,14 @@ PurgeComplete ==
        \A x \in relq :
           (FoldOf[x.name] = FoldOf[last'.q.name] /\ x.type = last'.q.type /\ x.class = last'.q.class)
             => (~Hit(PipeMsg(x)') /\ ~Hit(PipeWire(x)') /\ (x.client = "none" => ~Hit(PipeGet(x)')))]_vars
-(* ... and removes only entries of q, or entries sitting under q's own two *)
-(* shared keys (a colliding entry is evicted, never served)                *)
+(* ... and removes only entries of q: "on every lookup route - ..., purge - *)
+(* and even when two different questions collide on the 64-bit cache key,   *)
+(* in which case the entry behaves as a miss" -- the entry of another       *)
+(* question sitting under q's own key survives (MC_PurgeByKey.cfg is the    *)
+(* negative twin: the as-built removal by key violates this)                *)
 PurgeExact ==
   [][last'.op = "purge" =>
-       /\ \A k \in DOMAIN pos \ DOMAIN pos' :
-             \/ SameQ(pos[k], last'.q)
-             \/ k \in {KeyOf(Pre(last'.q.name, last'.q.type, last'.q.class, cd, "sh")) : cd \in BOOLEAN}
+       /\ \A k \in DOMAIN pos \ DOMAIN pos' : SameQ(pos[k], last'.q)
        /\ \A k \in DOMAIN pos' : pos'[k] = pos[k]
        /\ \A k \in DOMAIN fail \ DOMAIN fail' : SameQ(fail[k], last'.q)
        /\ \A c \in cuts \ cuts' : c.class = last'.q.class /\ MatchCut(HitCut(c), [name |-> last'.q.name,
